@@ -22,9 +22,9 @@ Next == /\ ~done
            \/ done' = TRUE /\ UNCHANGED rows
 Spec == Init /\ [][Next]_vars
 
-TrueNumbers == \A L0 \in {1, 7}, R0 \in {1, 9} : Run(rows, 1, L0, R0) = Want(rows, L0, R0)
+TrueNumbers == \A L0 \in {1, 7}, R0 \in {1, 9} : AllTrue(rows, L0, R0, Run(rows, 1, L0, R0), <<TRUE, TRUE, TRUE, TRUE>>)
 \* unified view: the same counters, one call per row
 UnifiedTrue == \A a, b, c \in {"minus", "plus", "zero"} :
-                 LET u == UniRows(a) \o UniRows(b) \o UniRows(c) IN Run(u, 1, 3, 5) = Want(u, 3, 5)
+                 LET u == UniRows(a) \o UniRows(b) \o UniRows(c) IN AllTrue(u, 3, 5, Run(u, 1, 3, 5), <<TRUE, TRUE, TRUE, TRUE>>)
 Replay == ~done \/ ~Emit \/ Len(rows) = 0 \/ PrintT(<<"REPLAY", ToJson([rows |-> rows])>>)
 =============================================================================
